@@ -29,6 +29,7 @@ backward seek after a table read; distinct = distinct case hashes.",
     ],
     run,
     replay,
+    from_bytes: Some(from_bytes),
 };
 
 pub fn with_pos(ops: Vec<ROp>) -> Vec<ROp> {
@@ -58,7 +59,7 @@ pub fn check_case(c: &Case, env: &Env) -> CheckResult {
                 left -= s;
             }
             ops2.extend_from_slice(&c.ops[i + 1..]);
-            let twin = RCase { cfg: c.cfg, img: c.img.clone(), cut_words: c.cut_words, ops: ops2 };
+            let twin = RCase { cfg: c.cfg, img: c.img.clone(), cut_words: c.cut_words, ops: ops2, free: false };
             if let Err(mut f) = check_rcase(&twin, env) {
                 f.sig = format!("twin/{}", f.sig);
                 return Err(f);
@@ -133,7 +134,7 @@ fn run(ctx: &Ctx, env: &Env) -> Stats {
                     menu.push(ROp::Peek(r.peek_max() as u8));
                     menu.push(ROp::Skip(w as u32 + 3));
                     menu.push(ROp::IoRead(3));
-                    let step = if ctx.quick() && w >= 32 { 3 } else { 1 };
+                    let step = if ctx.quick() && w >= 64 { 2 } else { 1 };
                     for s in (0..n_states(r)).step_by(step) {
                         let (pre, _) = state_prefix(r, s);
                         for p in 0..=(4 * w) {
@@ -143,7 +144,7 @@ fn run(ctx: &Ctx, env: &Env) -> Stats {
                                 ops.push(ROp::Seek(p as u64));
                                 ops.push(nx.clone());
                                 ops.push(ROp::Bits(64));
-                                part.check(&RCase { cfg, img: img.clone(), cut_words: None, ops: with_pos(ops) }, &f);
+                                part.check(&RCase { cfg, img: img.clone(), cut_words: None, ops: with_pos(ops), free: false }, &f);
                             }
                         }
                         // seek to every item start in range and read that item with every table option
@@ -153,7 +154,7 @@ fn run(ctx: &Ctx, env: &Env) -> Stats {
                                 ops.push(ROp::Seek(st as u64));
                                 ops.push(ROp::Code(call));
                                 ops.push(ROp::Bits(9));
-                                part.check(&RCase { cfg, img: img.clone(), cut_words: None, ops: with_pos(ops) }, &f);
+                                part.check(&RCase { cfg, img: img.clone(), cut_words: None, ops: with_pos(ops), free: false }, &f);
                             }
                         }
                     }
@@ -238,10 +239,16 @@ pub fn gen_case(s: &mut Src, max_ops: usize) -> Case {
             }
         }
     }
-    RCase { cfg, img, cut_words: None, ops: with_pos(ops) }
+    RCase { cfg, img, cut_words: None, ops: with_pos(ops), free: false }
 }
 
 fn replay(v: &serde_json::Value, env: &Env) -> CheckResult {
     let c: Case = serde_json::from_value(v.clone()).map_err(|e| Failure::new("replay/parse", e.to_string()))?;
     run_guarded(&c, &|c: &Case| check_case(c, env))
+}
+
+fn from_bytes(data: &[u8], env: &Env) -> (serde_json::Value, CheckResult) {
+    let c = gen_case(&mut Src::new(data), 60);
+    let r = run_guarded(&c, &|c| check_case(c, env));
+    (serde_json::to_value(&c).unwrap_or(serde_json::Value::Null), r)
 }
